@@ -19,6 +19,7 @@ type kdef struct {
 	Method string   `json:"method"`
 	Range  string   `json:"range"`
 	Rbody  string   `json:"rbody"`
+	Expect bool     `json:"expect"`
 	Status int      `json:"status"`
 	Hdrs   []string `json:"hdrs"`
 	Body   string   `json:"body"`
@@ -131,6 +132,9 @@ func runSequences(dir, backend, in, out string) error {
 			cc := *oc
 			if kd.Rbody != "" && kd.Rbody != "none" {
 				cc.Rbody = kd.Rbody
+			}
+			if kd.Expect {
+				cc.ReqItems = append(cc.ReqItems, Item{W: "Expect", V: "100-continue"})
 			}
 			switch kd.Range {
 			case "ok":
